@@ -23,6 +23,27 @@ PLS = {
     "N=3": ("int N = 3", False, True, [("", None, 3), ("5", None, 5)]),
     "T,N=3": ("class T, int N = 3", True, True, [("char", "char", 3), ("long, 6", "long", 6)]),
 }
+# chained defaults: a default argument refers to an earlier parameter that may itself be
+# defaulted; instantiated with 0..k explicit arguments.  (text, has type, has bound,
+# [(arguments, concrete element type, concrete bound)]); the member is written over the LAST
+# parameters of the chain, named in PL_NAMES (element type parameter, bound parameter)
+PLS.update({
+    "T,U=T": ("class T, class U = T", True, False,
+              [("char", "char", None), ("char, long", "long", None)]),
+    "T,U=T,V=Bx<U>": ("class T, class U = T, class V = Bx<U>", True, False,
+                      [("char", "::Bx<char>", None), ("char, long", "::Bx<long>", None),
+                       ("char, long, int", "int", None)]),
+    "T,N=4,M=N*2": ("class T, int N = 4, int M = N * 2", True, True,
+                    [("char", "char", 8), ("char, 3", "char", 6), ("char, 3, 5", "char", 5)]),
+    "T,A=Al<T>,C=Cm<A>": ("class T, class A = Al<T>, class C = Cm<A>", True, False,
+                          [("char", "::Cm< ::Al<char> >", None), ("char, long", "::Cm<long>", None),
+                           ("char, long, int", "int", None)]),
+    "N=2,M=N+1,T=Ar<int,M>": ("int N = 2, int M = N + 1, class T = Ar<int, M>", True, True,
+                              [("", "::Ar<int, 3>", 3), ("5", "::Ar<int, 6>", 6),
+                               ("5, 7", "::Ar<int, 7>", 7), ("5, 7, char", "char", 7)]),
+})
+PL_NAMES = {"T,U=T": ("U", None), "T,U=T,V=Bx<U>": ("V", None), "T,N=4,M=N*2": ("T", "M"),
+            "T,A=Al<T>,C=Cm<A>": ("C", None), "N=2,M=N+1,T=Ar<int,M>": ("T", "M")}
 PL_ORDER = list(PLS)
 THOROUGH_EXTRA = {
     "T": [("S", "::S", None), ("Q<S, 3>", "::Q< ::S, 3>", None)],
@@ -34,6 +55,10 @@ THOROUGH_EXTRA = {
 PRELUDE = """\
 struct S { int m; };
 template<class X, int K> struct Q { X q[K]; };
+template<class X> struct Bx { int z; };
+template<class X> struct Al { int z; };
+template<class X> struct Cm { int z; };
+template<class X, int K> struct Ar { int z; };
 """
 
 ELEMS = ("T", "int", "S")
@@ -91,16 +116,18 @@ class TCase:
     def member(self):
         """The member declaration as written inside the template."""
         _, hasT, hasN, _ = PLS[self.pl]
-        B = "N" if hasN else "3"
-        A = "T" if hasT else "int"
+        eP, bP = PL_NAMES.get(self.pl, ("T", "N"))
+        B = (bP or "N") if hasN else "3"
+        A = eP if hasT else "int"
+        E = eP if self.elem == "T" else self.elem
         n = self.name
         if self.role == "data":
-            return self._fmt(n, self.elem, B, A) + ";"
+            return self._fmt(n, E, B, A) + ";"
         if self.role == "typedef":
-            return "typedef " + self._fmt(n, self.elem, B, A) + ";"
+            return "typedef " + self._fmt(n, E, B, A) + ";"
         if self.role == "param":
-            return "static void %s(%s);" % (n, self._fmt("a", self.elem, B, A))
-        return "static " + self._fmt(n + "(void)", self.elem, B, A) + ";"
+            return "static void %s(%s);" % (n, self._fmt("a", E, B, A))
+        return "static " + self._fmt(n + "(void)", E, B, A) + ";"
 
     def render(self):
         text = PLS[self.pl][0]
